@@ -25,7 +25,8 @@ def rule_z1(chk: Check, ix: Index):
         gen = _calls(f.node, lambda s: s == "generate_tokens")
         tk = _calls(f.node, lambda s: s == "Tokenizer")
         mk = _calls(f.node, lambda s: s == "cls")
-        run = _calls(f.node, lambda s: s == "parser.parse")
+        run = [n for n in ast.walk(f.node) if isinstance(n, ast.Call) and isinstance(n.func, ast.Attribute) and n.func.attr == "parse"
+               and (norm_stmt(n.func.value) == "parser" or (isinstance(n.func.value, ast.Call) and norm_stmt(n.func.value.func) == "cls"))]
         return gen, tk, mk, run
 
     a, b = pipeline(pf), pipeline(ps)
@@ -64,7 +65,7 @@ def rule_z1(chk: Check, ix: Index):
     def handlers(f):
         out = []
         for t in [n for n in own_nodes(f.node) if isinstance(n, ast.Try)]:
-            if any(isinstance(c, ast.Call) and norm_stmt(c.func) == "parser.parse" for b in t.body for c in ast.walk(b)):
+            if any(isinstance(c, ast.Call) and isinstance(c.func, ast.Attribute) and c.func.attr == "parse" for b in t.body for c in ast.walk(b)):
                 out += [norm_stmt(h.type) if h.type is not None else "*" for h in t.handlers] + (["finally"] if t.finalbody else [])
         return sorted(out)
 
@@ -149,10 +150,17 @@ def rule_z4(chk: Check, ix: Index):
     # both sources key lines by the same 1-based line number
     chk.count("Z4-line-source")
     scan = [n for n in own_nodes(f.node) if isinstance(n, ast.For)]
-    cnt_ok = any(isinstance(s, ast.AugAssign) and norm_stmt(s) == "count += 1" for n in scan for s in n.body) and \
-        any(norm_stmt(s) == "count = 0" for s in ast.walk(f.node) if isinstance(s, ast.Assign))
+    # idioms: a counter started at 0 and incremented before use, or enumerate(f, 1)
+    counter = any(isinstance(s, ast.AugAssign) and isinstance(s.op, ast.Add) and norm_stmt(s.value) == "1" and isinstance(s.target, ast.Name)
+                  and n.body and s is n.body[0]
+                  and any(isinstance(a, ast.Assign) and norm_stmt(a) == f"{s.target.id} = 0" for a in ast.walk(f.node))
+                  for n in scan for s in n.body)
+    enum1 = any(isinstance(n.iter, ast.Call) and norm_stmt(n.iter.func) == "enumerate" and
+                (len(n.iter.args) == 2 and norm_stmt(n.iter.args[1]) == "1" or
+                 any(k.arg == "start" and norm_stmt(k.value) == "1" for k in n.iter.keywords)) for n in scan)
+    cnt_ok = counter or enum1
     chk.require(cnt_ok, "Z4-line-source", "Tokenizer.get_lines:line-numbering", f.where,
-                "the file scan must number lines from 1 (count starts at 0 and is incremented before use)")
+                "the file scan must number lines from 1 (a counter started at 0 and incremented before use, or enumerate(f, 1))")
 
 
 def run(chk: Check):
